@@ -212,6 +212,12 @@ def exhaustive_bases(tier):
     # in that tick too (F2b: a proxy wait can be registered but never started before the shutdown)
     bases.append(mk([thr([[0, 0, -1]], stop=3, epi=FULL), thr([[0, 3, -1]])], [[3, 1], [2, 1]]))
     bases.append(mk([thr([[0, 0, -1]], stop=3, epi=FULL), thr([[0, 3, -1]])], [[3, 0], [2, 1]]))
+    # the computing caller is cancelled in the very tick in which its computation ends (its main woke
+    # for a later arrival in between, so the computation's timer fires first), a waiter sits on its
+    # loop and a caller of another loop goes through the locked section in that tick (C05-m7: a
+    # suspension point inside the completion bookkeeping)
+    bases.append(mk([thr([[0, 0, 3], [0, 1, -1]]), thr([[0, 3, -1]])], [[3, 1], [2, 1], [2, 1]]))
+    bases.append(mk([thr([[0, 0, 3], [0, 1, -1]]), thr([[0, 3, -1]])], [[3, 0], [2, 1], [2, 1]]))
     # computing caller cancelled / waiting caller cancelled
     bases.append(mk([thr([[0, 0, 1]]), thr([[0, 0, -1]])], [[3, 1], [2, 1]]))
     bases.append(mk([thr([[0, 0, -1]]), thr([[0, 0, 1]])], [[3, 1], [2, 1]]))
